@@ -125,6 +125,8 @@ class CompactFilter:
         hashes = list(hashes)
         # F = N * M where N counts every element of the filter, including equal hashes
         self.f = len(hashes) * GOLOMB_M
+        # what gets serialized: two elements that hash to the same value are both coded
+        self.sorted_hashes = sorted(hashes)
         self.hashes = set(hashes)
 
     def __repr__(self):
@@ -146,7 +148,7 @@ class CompactFilter:
         return hash256(self.serialize())
 
     def serialize(self):
-        return serialize_gcs(sorted(list(self.hashes)))
+        return serialize_gcs(self.sorted_hashes)
 
     def compute_hash(self, raw_script_pubkey):
         return hash_to_range(self.key, raw_script_pubkey, self.f)
